@@ -678,14 +678,20 @@ def _k1(ctx: Context) -> None:
     def sl(lo, hi):
         return ("sub", data, ("slice", ("const", lo), ("const", hi), None))
 
-    fmt = ctx.prog.try_const(ast.parse("UNPACK_HHBB").body[0].value, f.module, None, None)
-    fmt_s = getattr(getattr(fmt, "struct", None), "fmt", None)
-    ck.check("C19.K1", fmt_s == "<HHBB", "BLE: ACID/GSN/CN/CV are unpacked little-endian as <HHBB",
-             f"{ctx.fkey(f)}:hhbb-format", f"UNPACK_HHBB format is {fmt_s!r}", f.loc())
+    from ..engine.loader import StructMethod as _SM
+
+    fmts = set()
 
     def unpacked(i):
+        """field i of the six bytes at 9..15 read as <HHBB: unpack(data[9:15])[i] or unpack_from(data, 9)[i]"""
         def p(t):
-            return t[0] == "sub" and t[2] == ("const", i) and t[1][0] == "call" and t[1][2] == (sl(9, 15),) and isinstance(t[1][1][1], object)
+            if not (t[0] == "sub" and t[2] == ("const", i) and t[1][0] == "call" and not t[1][3]):
+                return False
+            fn, args = t[1][1], t[1][2]
+            if not (fn[0] == "const" and isinstance(fn[1], _SM)):
+                return False
+            fmts.add(fn[1].struct.fmt)
+            return (fn[1].method == "unpack" and args == (sl(9, 15),)) or (fn[1].method == "unpack_from" and args == (data, ("const", 9)))
         return p
 
     def wrapped(name, inner):
@@ -703,12 +709,14 @@ def _k1(ctx: Context) -> None:
         t = kw.get(field, ("unknown", "missing"))
         ck.check("C19.K1", pred(t), f"BLE: {field} = {want}", f"{ctx.fkey(f)}:field:{field}",
                  f"HomeKitAdvertisement: {field} is {show(t, 120)}, expected {want}", ctx.loc(f, rn))
+    ck.check("C19.K1", fmts == {"<HHBB"}, "BLE: ACID/GSN/CN/CV are unpacked little-endian as <HHBB",
+             f"{ctx.fkey(f)}:hhbb-format", f"the category / state number / config number are unpacked with format(s) {sorted(fmts)}", f.loc())
     idt = kw.get("id", ("unknown", ""))
     ok_id = (
         idt[0] == "call" and idt[1][0] == "attr" and idt[1][2] == "lower"
         and contains(idt, lambda s: s == ("call", ("attr", sl(3, 9), "hex"), (), ()))
         and contains(idt, lambda s: s == ("const", ":"))
-    )
+    ) or idt == ("call", ("attr", sl(3, 9), "hex"), (("const", ":"),), ())  # bytes.hex(":") is lower-case and colon-separated already
     ck.check("C19.K1", ok_id, "BLE: id = lower-case colon-separated hex of data[3:9]", f"{ctx.fkey(f)}:field:id",
              f"HomeKitAdvertisement: id is {show(idt, 160)}", ctx.loc(f, rn))
     sh = kw.get("setup_hash", ("unknown", ""))
